@@ -67,10 +67,21 @@ package kernel
 //@   pure
 //@   ensures result <==> Ready(node, cn, timestamp)
 
+// ───────────── the ONE definition of the node excluded at a timestamp (C10, C09) ─────────────
+// RemCand(node, ts) is what removingOrSlashingNodeAt(ts) returns. The function is verified to write nothing; it does not range over
+// a map, read the clock or communicate, so its result is a function of its arguments and of the memory it reads (the node's epoch and
+// cached membership sequences and their CNodes): that DETERMINISM is the assumption `[det]` below -- its functional content stays
+// described by the verified clause [cand]. Predictive is the fork gate usePredictiveNodeRemovalSignerSet, written out.
+// RemovingAt(node, ts) is the node BOTH ConsensusThreshold (threshold base) and consensusNodes (signer key set) must skip.
+//@ uninterp RemCand(node *Node, ts uint64) *CNode reads uint64, byte, string, int, *CNode, []*CNode, *NodeStateSequence, []*NodeStateSequence
+//@ spec Predictive(node *Node, ts uint64) bool = node.networkId.String() != config.KernelNetworkId || ts >= mainnetConsensusNodeRemovalSignerSetForkAt
+//@ spec RemovingAt(node *Node, ts uint64) *CNode = Predictive(node, ts) ? RemCand(node, ts) : nil
+
 //@ func (node *Node) removingOrSlashingNodeAt
 //@   property C10, C29
 //@   requires NodeRep(node)
 //@   modifies nothing
+//@   assumes [det] result == old(RemCand(node, timestamp))
 //@   ensures [cand] result != nil ==> timestamp >= node.Epoch && AcceptHour(node, timestamp) &&
 //@       (exists i int :: ListIdx(node.nodeStateSequences, WindowStart(node, timestamp), i) &&
 //@        len(node.nodeStateSequences[i].NodesWithoutState) > config.KernelMinimumNodesCount &&
@@ -86,6 +97,8 @@ package kernel
 //@   ensures [nonecounted] (NoList(node.nodeStateSequences, timestamp) || (exists i int :: ListIdx(node.nodeStateSequences, timestamp, i) &&
 //@       (forall k int :: 0 <= k && k < len(node.nodeStateSequences[i].NodesWithoutState) ==> !Counted(node, node.nodeStateSequences[i].NodesWithoutState[k], timestamp, final))))
 //@       ==> result == 1000
+//@   hint at "nodes := node.NodesListWithoutState(timestamp, false)" [removing] removing == old(RemovingAt(node, timestamp))
+//@   loop 0 invariant [removing] removing == old(RemovingAt(node, timestamp))
 //@   loop 0 invariant 0 <= consensusBase && consensusBase <= rangeindex + 1
 //@   loop 0 invariant [exact0] (forall k int :: 0 <= k && k <= rangeindex ==> (Excluded(removing, nodes[k]) || !Counted(node, nodes[k], timestamp, final))) ==> consensusBase == 0
 //@   loop 0 invariant [exact1] (forall k int :: 0 <= k && k <= rangeindex ==> (!Excluded(removing, nodes[k]) && Counted(node, nodes[k], timestamp, final))) ==> consensusBase == rangeindex + 1
@@ -104,6 +117,8 @@ package kernel
 //@   ensures [index] forall k int :: 0 <= k && k < len(result) ==> result[k] != nil && fresh(result[k]) && result[k].ConsensusIndex == k
 //@   ensures [ready] forall k int :: 0 <= k && k < len(result) - ((Pledging(chain) && round == 0) ? 1 : 0) ==> Ready(chain.node, result[k], timestamp)
 //@   ensures [pledger] Pledging(chain) && round == 0 ==> len(result) > 0 && SameNode(result[len(result) - 1], chain.ConsensusInfo)
+//@   hint at "nodes := chain.node.NodesListWithoutState(timestamp, false)" [removing] removing == old(RemovingAt(chain.node, timestamp))
+//@   loop 0 invariant [removing] removing == old(RemovingAt(chain.node, timestamp))
 //@   loop 0 invariant [list] IsList(chain.node.nodeStateSequences, timestamp, nodes)
 //@   loop 0 invariant cap(participants) == 0 || fresh(participants)
 //@   loop 0 invariant 0 <= len(participants) && len(participants) <= rangeindex + 1
